@@ -1,6 +1,7 @@
 package excellent
 
 import (
+	"errors"
 	"strings"
 
 	"github.com/antlr4-go/antlr/v4"
@@ -97,8 +98,30 @@ func (e *Evaluator) Expression(env envs.Environment, ctx *types.XObject, express
 	return parsed.Evaluate(env, scope, warnings), warnings.all
 }
 
+// MaxParseDepth is the maximum nesting of parser rules and the maximum depth of the parse tree of an expression. The
+// generated parser, the visitor and the evaluation of the parsed expression all recurse once per level, and exhausting
+// the stack is a fatal error that can't be recovered from, so deeper expressions are rejected as they are parsed.
+const MaxParseDepth = 2500
+
+var errTooDeep = errors.New("expression is too deeply nested")
+
+// tracks the depth of the rule currently being parsed
+type depthListener struct {
+	*antlr.BaseParseTreeListener
+	depth int
+}
+
+func (l *depthListener) EnterEveryRule(ctx antlr.ParserRuleContext) {
+	l.depth++
+	if l.depth > MaxParseDepth {
+		panic(errTooDeep)
+	}
+}
+
+func (l *depthListener) ExitEveryRule(ctx antlr.ParserRuleContext) { l.depth-- }
+
 // Parse parses an expression
-func Parse(expression string, contextCallback func([]string)) (Expression, error) {
+func Parse(expression string, contextCallback func([]string)) (exp Expression, err error) {
 	errListener := NewErrorListener(expression)
 
 	input := antlr.NewInputStream(expression)
@@ -107,6 +130,17 @@ func Parse(expression string, contextCallback func([]string)) (Expression, error
 	p := gen.NewExcellent3Parser(stream)
 	p.RemoveErrorListeners()
 	p.AddErrorListener(errListener)
+	p.AddParseListener(&depthListener{BaseParseTreeListener: &antlr.BaseParseTreeListener{}})
+
+	defer func() {
+		if r := recover(); r != nil {
+			if r != errTooDeep {
+				panic(r)
+			}
+			exp, err = nil, errTooDeep
+		}
+	}()
+
 	tree := p.Parse()
 
 	// if we ran into errors parsing, return the first one
